@@ -79,6 +79,15 @@ template<typename IT2> static long rt_kind(int kind, ul a, ul b, ul c, ul d, con
   case 3: return roundtrip<CSR, IT2>(vals, idxs, o1, o2, osize, Index(a), Index(b), Index(c));
   case 4: return roundtrip<CSCR, IT2>(vals, idxs, o1, o2, osize, Index(a), Index(b), Index(c), Index(d));
   case 5: return roundtrip<BCSR, IT2>(vals, idxs, o1, o2, osize, Index(a), Index(b), Index(c));
+  case 6:
+  {
+    // a rows, b columns, c offsets (symbolic, valid: offset + 2 <= rows + columns)
+    const Index ia = Index(a), ic = Index(c); DV e(ia * ic); LAFEM::DenseVector<Index, Index> of(ic);
+    for(Index i = 0; i < ia * ic; ++i) reinterpret_cast<ul*>(e.elements())[i] = vals[i];
+    for(Index i = 0; i < ic; ++i) of.elements()[i] = Index(idxs[i]);
+    BAND x(ia, Index(b), e, of);
+    return roundtrip_obj<BAND, IT2>(x, o1, o2, osize);
+  }
   case 7: return roundtrip<DM, IT2>(vals, idxs, o1, o2, osize, Index(a), Index(b));
   default: return 0;
   }
